@@ -7,7 +7,10 @@ Header   `fallback strategy=<s> [handle=<mask>] val=<n> [via=<builder|short|defa
          `chain=<setter>.<setter>.…` (instead of `strategy=` / `handle=` / `order=`): the layer is built by exactly this sequence of
          builder calls — strategy setters by name (`value:<n>` / `value_fn:<n>`: with n instead of `val`), `h<mask>` = `.handle(..)`,
          `n` = `.name(..)`; several strategy setters and several `handle` calls in any order: the last of each kind is in force
-Requests `arrive <c> tag=<t> inner=<lat>:<out>[,<lat>:<out>] [post=<steps>] [svc=<k>] [reuse=1]` (second step = the backup call);
+Requests `arrive <c> tag=<t> inner=<lat>:<out>[,<lat>:<out>] [post=<steps>] [svc=<k>] [reuse=1] [gen=<g>]` (second step = the backup call);
+         the request type has an observable `Clone` (a generation counter bumped by `clone()`); `gen=<g>`: the generation of the
+         request the caller submits (default 0); everything that is handed a request logs `reqgen <who> <c> <generation it got>`
+         right before its own line (who = inner | backup | from_request_error | ufrom_request_error)
          `post=`: what the caller does with an error result before looking at it — `c` clone it, `v` view it through the
          accessors (`view c <is_inner> <is_failed> <ref kind> <ref v> <into kind> <into v>`), `m` convert the payload with
          `FallbackError::map` (kind + 100); `svc=<k>`: which of several services built from the one layer value (odd k: from a
@@ -66,6 +69,8 @@ _order = [0]
 
 _via = [0]
 VIAS = ["builder", "short", "default"]
+# generations of a submitted request other than 0 (an original)
+GENS = [1, 1, 2, 3, 7, 40]
 
 
 def header(s, h, val, ready=None, bready=None, upper=None, chain=None):
@@ -191,6 +196,9 @@ def _caller_opts(rng, multi):
     p = rng.choice(POSTS)
     if p:
         o += " post=" + p
+    # two requests in five are themselves copies (the caller submits generation g > 0 of its request)
+    if rng.random() < 0.4:
+        o += " gen=%d" % rng.choice(GENS)
     if multi:
         r = rng.random()
         if r < 0.35:
@@ -712,7 +720,76 @@ def _probe_ref(cfg, o):
     return "probe strategy value ok %d 0 0" % val
 
 
+def _submitted_gens(case):
+    """caller -> generation of the request it submitted (`gen=` of its first arrive; 0 = an original)"""
+    gens = {}
+    for o in case["ops"]:
+        w = o.split()
+        if len(w) >= 2 and w[0] == "arrive" and w[1].isdigit() and int(w[1]) not in gens:
+            gens[int(w[1])] = int(kvs(o).get("gen", 0))
+    return gens
+
+
+_SIGHT_NEXT = {"inner": ["inner_call"], "backup": ["binner_call"], "from_request_error": ["strategy", "from_request_error"],
+               "ufrom_request_error": ["ustrategy", "from_request_error"]}
+
+
+def _split_reqgen(lines):
+    """the log without its `reqgen` lines, and those as (who, caller, generation, words of the line that follows)"""
+    rest = []
+    sights = []
+    for i, l in enumerate(lines):
+        w = tparse(l)[1]
+        if w[:1] == ["reqgen"]:
+            nxt = tparse(lines[i + 1])[1] if i + 1 < len(lines) else []
+            sights.append((w[1], int(w[2]), int(w[3]), nxt))
+        else:
+            rest.append(l)
+    return rest, sights
+
+
+def mon_request_copies(case, lines, meta):
+    """Which copy of the request goes where. The property fixes the primary side: the wrapped service gets the request the
+    caller submitted ("for that request", a success "passes through unchanged") — for a request type with an observable
+    `Clone`, the SAME generation, on every call, successful ones included. That the request-taking strategies
+    (`from_request_error`, the backup service) get exactly one copy further (lib.rs:279, `req.clone()` before the inner call) is
+    the model's reading of the code, not of the property text: a deviation there is reported as a broken correspondence."""
+    gens = _submitted_gens(case)
+    rest, sights = _split_reqgen(lines)
+    for (who, c, g, nxt) in sights:
+        if who not in _SIGHT_NEXT:
+            return "unknown receiver of a request: reqgen %s" % who
+        head = _SIGHT_NEXT[who]
+        if nxt[:len(head)] != head or (who in ("inner", "backup") and nxt[1:2] != [str(c)]) or \
+                (who.endswith("from_request_error") and nxt[2:3] != [str(c)]):
+            return "PINNED: `reqgen %s %d` is not followed by the %s line of caller %d (got %r)" % (who, c, " ".join(head), c, " ".join(nxt))
+        if c not in gens:
+            return "caller %d appears in the log but never arrived" % c
+        if who == "inner" and g != gens[c]:
+            return ("caller %d submitted generation %d of its request; the wrapped service was handed generation %d — not the request "
+                    "the layer was given but a copy of it" % (c, gens[c], g))
+    for (who, c, g, nxt) in sights:
+        if who != "inner" and g != gens[c] + 1:
+            return ("PINNED: caller %d submitted generation %d of its request; %s was handed generation %d, the model says %d "
+                    "(the one copy taken before the inner call)" % (c, gens[c], who, g, gens[c] + 1))
+    # nothing is handed a request without saying which one it got
+    n_seen = {}
+    for (who, c, g, nxt) in sights:
+        n_seen[who] = n_seen.get(who, 0) + 1
+    n_ev = {"inner": 0, "backup": 0, "from_request_error": 0, "ufrom_request_error": 0}
+    for l in rest:
+        w = tparse(l)[1]
+        for who, head in _SIGHT_NEXT.items():
+            if w[:len(head)] == head:
+                n_ev[who] += 1
+    for who in n_ev:
+        if n_ev[who] != n_seen.get(who, 0):
+            return "PINNED: %d %s lines but %d `reqgen %s` lines" % (n_ev[who], " ".join(_SIGHT_NEXT[who]), n_seen.get(who, 0), who)
+    return None
+
+
 def mon_c17(case, lines, meta):
+    lines = _split_reqgen(lines)[0]
     cfg = config_in_force(kvs(case["header"]))
     tags = _requests(case)
     posts = _posts(case)
@@ -973,7 +1050,17 @@ def transitions(case, lines, meta=None):
     raw = kvs(case["header"])
     cfg = config_in_force(raw)
     strat = cfg.get("strategy", "value")
-    tags = _dropsvc_tags(case, lines, meta) + _ready_tags(case, lines, cfg, strat) + _caller_tags(case, lines, cfg) + _chain_tags(raw, lines)
+    tags = _dropsvc_tags(case, lines, meta)     # (line indices of `meta` refer to the full log)
+    lines, sights = _split_reqgen(lines)
+    gens = _submitted_gens(case)
+    for (who, c, g, _) in sights:
+        sub = gens.get(c, 0)
+        tags.append("request-%s-%s" % ("original" if sub == 0 else "copy", "to-" + who.replace("_", "-")))
+        if who != "inner" and g == sub + 1:
+            tags.append("strategy-gets-the-copy")
+        if who == "inner" and g == sub:
+            tags.append("inner-gets-the-submitted-request")
+    tags += _ready_tags(case, lines, cfg, strat) + _caller_tags(case, lines, cfg) + _chain_tags(raw, lines)
     done_err = set()
     for l in lines:
         _, w = tparse(l)
@@ -1036,7 +1123,9 @@ ALL = (["inner-ok", "inner-err", "inner-panic", "handled-no-predicate", "predica
        + ["chain-last-" + s for s in STRATEGIES] + ["chain-overridden-" + s for s in STRATEGIES]
        + ["chain-several-strategies", "chain-three-strategies", "chain-same-strategy-twice", "chain-two-handles",
           "chain-handle-before-strategies", "chain-handle-between-strategies", "chain-handle-after-strategies",
-          "chain-no-handle", "chain-name"])
+          "chain-no-handle", "chain-name"]
+       + ["request-%s-to-%s" % (o, w) for o in ("original", "copy") for w in ("inner", "backup", "from-request-error", "ufrom-request-error")]
+       + ["strategy-gets-the-copy", "inner-gets-the-submitted-request"])
 
 LEVEL_NOTE = ("Trusted: Lean kernel; the reading of lib.rs:274-512 as TR.Model.Fallback.afterInner/afterBackup and of the async block as the "
               "three-phase machine (validated by the sampled correspondence check, which enumerates the complete strategy x predicate x inner "
@@ -1050,7 +1139,7 @@ SPECS = {
         "group": "fallback",
         "module": "TR.Props.C17",
         "gen": gen,
-        "monitors": [("c17-reference-function", mon_c17)],
+        "monitors": [("c17-request-copies", mon_request_copies), ("c17-reference-function", mon_c17)],
         "canon": canon,
         "transitions": transitions,
         "nontrivial": nontrivial,
@@ -1071,7 +1160,8 @@ SPECS = {
                 "second request's error result goes through a caller-side post-processing (clone / accessors / FallbackError::map steps), the layer "
                 "is built in rotation through the builder, the strategy's shortcut constructor (no predicate) and the Default builder, in one case of "
                 "four the requests are spread over several services built from the one layer value (odd ones from a clone of it) and some calls are "
-                "made on the long-lived handles themselves, some cases probe a cloned FallbackStrategy value; then the builder-chain grid: every ordered pair of "
+                "made on the long-lived handles themselves, some cases probe a cloned FallbackStrategy value, the request type has an observable Clone (generation counter) and two requests in five are "
+                "submitted as copies (gen=g > 0), every receiver of a request logging the generation it got; then the builder-chain grid: every ordered pair of "
                 "strategy setters in one chain (the same one twice too, value setters with different values) and 12 chains of three, the handle call(s) "
                 "{absent, before, between, after, two different ones} and name calls in between (25 requests each; header chain=…: the layer is built by "
                 "exactly that sequence of builder calls); the rest are seeded random schedules (in a quarter of them and a fifth of the readiness cases the layer is built by a chain of 1..3 strategy setters with handle/name calls anywhere;  (arrive/poll/drop/adv/settle, 1..8 requests, "
@@ -1122,6 +1212,9 @@ SPECS = {
                       "included), the predicate is that of the last handle call or none, neither slot depends on the setters of the other, build() "
                       "fails exactly without a strategy setter (builder_strategy_last_wins, builder_predicate_independent, builder_needs_a_strategy, "
                       "install_reads_own_function, builder_behaviour_is_last_strategy, builder_exception_overridden). "
+                      "For a request type whose Clone is observable: the inner call is handed the very request the caller submitted (generation "
+                      "included), the backup service and from_request_error its one copy, in every run (handOut_exact, swapped_handOut_differs, "
+                      "inner_gets_submitted_request, strategy_gets_the_copy, every_sight_justified, stack_hands_down_the_original). "
                       "Model tied to the real FallbackLayer by line-for-line agreement on the "
                       "complete grid plus random schedules.",
         "level_note": LEVEL_NOTE,
